@@ -134,6 +134,7 @@ type G struct {
 	Simple      bool
 	ImplPick    int // >=0: for the first interface-typed field met, use implementer number ImplPick (mod n)
 	Boundary    bool
+	ForceVecLen int // >0: length of the first vector met (then reset); elements are the cheapest values of the type
 }
 
 var StrLens = []int{0, 0, 1, 2, 3, 4, 5, 6, 7, 8, 9, 100, 251, 252, 253, 254, 255, 256, 257, 258, 1000}
@@ -274,6 +275,21 @@ func (g *G) Value(t reflect.Type, depth int, conditional bool) reflect.Value {
 			return reflect.ValueOf(g.bytesOf(g.strLen()))
 		}
 		n := 0
+		if g.ForceVecLen > 0 {
+			n = g.ForceVecLen
+			g.ForceVecLen = 0
+			sub := *g
+			sub.Simple = true
+			sl := reflect.MakeSlice(t, n, n)
+			d := depth + 1
+			if d < g.MaxDepth {
+				d = g.MaxDepth
+			}
+			for i := 0; i < n; i++ {
+				sl.Index(i).Set(sub.Value(t.Elem(), d, true))
+			}
+			return sl
+		}
 		if depth < g.MaxDepth {
 			n = []int{0, 1, 1, 2, 3, 6}[r.Intn(6)]
 			if g.Simple {
